@@ -1125,11 +1125,18 @@ def run(ctx):
                 "string; optional int/bool/str, lists, sets, nested Leaf, recursive Top, Par<Chi<Gch / Sib at one nested position) and of installed "
                 "schemas (core.file, core.imagefile, core.person, core.org, core.table), each operand realised through a randomly chosen source "
                 "(dict, instances, JSON, YAML via metadata_loader, constructor, construct, to_partial(complete)); plus round trips of complete objects. "
+                "Dynamic families: the class definitions are part of the case (1-4 definitions by class statement or create_model over MetadataSchema / "
+                "plain pydantic with extra allow|ignore; a name is regularly defined several times = distinct class objects with identical module and "
+                "qualname and different field sets, also `class X(X)`; partial of a definition created before or after the next definition), triples and "
+                "round trips on every definition, and the source class of every partial class (get_partial) compared with the factory model. "
                 "Non-trivial = tagged: falsy leaf present, nested/deep leaf, conflict, later-wins, non-dict source, harvest fold.")
     ctx.assumptions += [
         "model classes are single-inheritance chains of names; issubclass on partial classes = prefix test on the chains of their source classes",
         "pydantic re-validation in the cast-down branch (`to_partial` of a parent-class value into the child partial) is the identity on field values (no child narrows a parent field type in the generated families); the ValidationError fall-through of `_update_field` is not modelled",
         "set elements are atoms (sets of models cannot be serialised by pydantic v1 `.dict()`)",
+        "dynamic families: class objects are told apart by labels `<name>~<k>` (the model's class chains are chains of these labels); a model class nested in "
+        "another one carries a name that is defined only once, or is the class itself (nested references are resolved by NAME in `_forwardrefs`, see "
+        "`forwardref_by_name_is_ambiguous`)",
         "shape clashes (list vs. non-list at one field) are outside validated partials and are not generated",
     ]
     cases = core.load_corpus(ID) + gen_cases(ctx)
